@@ -516,6 +516,15 @@ func fuzz(r *rand.Rand, par, n int, only string) {
 			add(c)
 		}
 	}
+	if only != "fuzz" {
+		// invalid-by-construction modules: must be rejected
+		for i, iv := range invalidByConstruction() {
+			c := mkCase(fmt.Sprintf("invalid-%d", i), "invalid-by-construction", iv.feat, iv.bin, iv.rule)
+			c.MustReject = true
+			c.Mode = "compile"
+			add(c)
+		}
+	}
 	if only != "gen" {
 		// unmutated repository modules (distribution baseline; big ones compile-only)
 		for i, s := range small {
